@@ -88,6 +88,11 @@ func pmsgOf(t hx.T) pmsg {
 type config struct {
 	progs  [][]pmsg
 	oracle []bool
+	// what the dispatcher answers to Throughput().  The mailbox only resets a counter with it
+	// (the yield it once guarded is commented out), so the model does not depend on it; cases
+	// use the service dispatcher's 99 and small values, so that "more messages in one run than
+	// the throughput" is reached by short schedules too.
+	throughput int
 }
 
 func opsTerm(c config, sched []sid) hx.T {
@@ -107,14 +112,18 @@ func opsTerm(c config, sched []sid) hx.T {
 	for i, s := range sched {
 		sc[i] = s.term()
 	}
-	return hx.C("mkOps", progs, orc, sc)
+	return hx.C("mkOps", progs, orc, sc, int64(c.throughput))
 }
 
 func opsOf(t hx.T) (config, []sid) {
-	if t.Name != "mkOps" || len(t.Args) != 3 {
-		panic("c09: ops is not mkOps progs oracle sched")
+	if t.Name != "mkOps" || (len(t.Args) != 3 && len(t.Args) != 4) {
+		panic("c09: ops is not mkOps progs oracle sched throughput")
 	}
 	var c config
+	c.throughput = 99 // histories recorded before the field existed
+	if len(t.Args) == 4 {
+		c.throughput = int(t.Int(3))
+	}
 	for _, p := range t.List(0) {
 		var prog []pmsg
 		for _, m := range p.([]any) {
@@ -171,8 +180,9 @@ func (v *invoker) EscalateFailure(reason interface{}, message interface{}) {
 // single-consumer dispatcher: Schedule only queues; the consumer thread takes one task at
 // a time (as actorex/disp/schedisp.go does with its channel + run-service goroutine).
 type dispatcher struct {
-	mu sync.Mutex
-	q  []func()
+	mu         sync.Mutex
+	q          []func()
+	throughput int
 }
 
 func (d *dispatcher) Schedule(fn func()) {
@@ -181,7 +191,7 @@ func (d *dispatcher) Schedule(fn func()) {
 	d.mu.Unlock()
 }
 
-func (d *dispatcher) Throughput() int { return 99 }
+func (d *dispatcher) Throughput() int { return d.throughput }
 
 func (d *dispatcher) size() int {
 	d.mu.Lock()
@@ -543,7 +553,7 @@ func execute(c config, choose chooser) result {
 	mb := mailbox.Producer(0)().(*mailbox.SmoothFrameMailbox)
 	e := &exec{
 		m: mb, byGid: map[int64]*thread{}, events: make(chan event, 1024),
-		disp: &dispatcher{}, inv: &invoker{}, oracle: append([]bool{}, c.oracle...),
+		disp: &dispatcher{throughput: c.throughput}, inv: &invoker{}, oracle: append([]bool{}, c.oracle...),
 		clock: 1_000_000_000, maxCost: mailbox.VerifMaxProcessCost(mb), tags: map[string]bool{},
 	}
 	e.begin = e.clock
